@@ -357,3 +357,16 @@ def simple_recipe(alphabet, space=True, ng=None, adv=None, fmt=None, vertical=Fa
     return dict(ng=ng, upem=1000, asc=800, desc=-200, hadv=hadv,
                 vadv=[1000 + 11 * i for i in range(ng)] if vertical else None, vorg=None,
                 subs=[(3, 10 if fmt == 12 else 1, fmt, sorted(pairs))])
+
+
+def correspond(ctx, stream, lines, classify=None):
+    """ctx.correspond, plus: a disagreement is reported with its own concrete request (the shared machinery
+    lists a broken correspondence only when no other violation carries a failing input)."""
+    dis = ctx.correspond(stream, lines=lines, classify=classify)
+    if dis:
+        d = dis[0]
+        ctx.violation(f"model and crate disagree on stream {stream} ({len(dis)} of {len(lines)} requests); "
+                      f"smallest: impl `{d['impl'][:160]}` model `{d['model'][:160]}`",
+                      {"stage": "correspond", "stream": stream, "request": d["request"], "impl": d["impl"],
+                       "model": d["model"], "count": len(dis)})
+    return dis
